@@ -149,6 +149,28 @@ pub const USERS: &[&str] = &["root", "alice", "bob", "Alice", "undefined"];
 pub const GROUPS: &[&str] = &["root", "wheel", "users", "Wheel", "g1"];
 pub const PROCS: &[&str] = &["curl", "python3", "waagent", "Curl", "cur"];
 // the helper processes of the end-to-end rig live at these paths (ns::RUN_ROOT/bin/<name>)
+/// a rule can only state Unicode; a caller's executable path is arbitrary bytes. EXE_RAW stands for the path whose last byte
+/// is 0xFF (the private-use character U+E0FF is turned into that byte by `exe_os`): it is NOT equal to EXE_LOSSY, the valid
+/// path that shows U+FFFD there, although a lossy conversion of the former yields the latter
+pub const EXE_LOSSY: &str = "/verif/run/bin/cur\u{FFFD}";
+pub const EXE_RAW: &str = "/verif/run/bin/cur\u{E0FF}";
+
+/// the caller's executable path as the operating system has it (U+E080..U+E0FF -> bytes 0x80..0xFF)
+pub fn exe_os(s: &str) -> std::ffi::OsString {
+    use std::os::unix::ffi::OsStringExt;
+    let mut out = Vec::new();
+    for ch in s.chars() {
+        let c = ch as u32;
+        if (0xE080..=0xE0FF).contains(&c) {
+            out.push((c - 0xE000) as u8);
+        } else {
+            let mut b = [0u8; 4];
+            out.extend_from_slice(ch.encode_utf8(&mut b).as_bytes());
+        }
+    }
+    std::ffi::OsString::from_vec(out)
+}
+
 pub const EXES: &[&str] = &["/verif/run/bin/curl", "/verif/run/bin/python3", "/verif/run/bin/waagent", "/verif/run/bin/Curl", "/verif/run/bin/cur"];
 
 pub fn sel(pool: &'static [&'static str]) -> impl Strategy<Value = String> {
@@ -227,7 +249,7 @@ pub fn gident() -> impl Strategy<Value = GIdent> {
         sel(IDENT_NAMES),
         prop::option::weighted(0.5, sel(USERS)),
         prop::option::weighted(0.3, sel(GROUPS)),
-        prop::option::weighted(0.3, sel(EXES)),
+        prop::option::weighted(0.3, prop_oneof![6 => sel(EXES), 1 => Just(EXE_LOSSY.to_string())]),
         prop::option::weighted(0.3, sel(PROCS)),
     )
         .prop_map(|(name, user, group, exe, proc_name)| GIdent { name, user, group, exe, proc_name })
@@ -309,7 +331,8 @@ pub fn apply_bind(doc: &GDoc, url: &GUrl, claims: &GClaims, b: &Bind) -> (GUrl, 
                 }
             }
             if let Some(v) = &i.exe {
-                c.exe = v.clone();
+                // (half of the callers bound to a rule that states U+FFFD run the non-UTF-8 path with the same lossy image)
+                c.exe = if v == EXE_LOSSY && sel % 2 == 1 { EXE_RAW.to_string() } else { v.clone() };
             }
             if let Some(v) = &i.proc_name {
                 c.proc_name = v.clone();
@@ -401,7 +424,7 @@ pub fn assemble_doc((mode, default_access, rules_present, privileges, mut roles,
 pub fn gclaims() -> impl Strategy<Value = GClaims> {
     (0usize..USERS.len(), prop::collection::vec(sel(GROUPS), 0..3), 0usize..PROCS.len(), any::<bool>(), prop::bool::weighted(0.85)).prop_map(
         |(u, groups, p, elevated, proc_consistent)| {
-            let exe = EXES[p].to_string();
+            let exe = if !proc_consistent && groups.len() == 2 { EXE_RAW.to_string() } else { EXES[p].to_string() };
             let proc_name = if proc_consistent { PROCS[p].to_string() } else { PROCS[(p + 1) % PROCS.len()].to_string() };
             GClaims {
                 uid: if USERS[u] == "root" { 0 } else { 1000 + u as u64 },
